@@ -12,10 +12,10 @@ theorem head_div {major info : Nat} (h1 : major < 8) (h2 : info < 32) :
   omega
 
 /-- Reading back a head. -/
-theorem readHead_enc (major n : Nat) (hm : major < 8) (hn : n < maxLen) (body : Bytes) :
+theorem readHead_enc (major n : Nat) (hm : major < 8) (hn : n < argMax) (body : Bytes) :
     ∃ b info rest, encHead major n ++ body = b :: rest ∧ b.toNat / 32 = major ∧ b.toNat % 32 = info ∧
       readArg info rest = .ok (n, body) := by
-  unfold maxLen at hn
+  unfold argMax at hn
   unfold encHead
   split
   · rename_i h
@@ -43,7 +43,7 @@ theorem readHead_enc (major n : Nat) (hm : major < 8) (hn : n < maxLen) (body : 
           · simp
           · simp [readArg, readBE_append (show n < 256 ^ 8 by omega)]
 
-theorem decF_head (fuel major n : Nat) (hm : major < 7) (hn : n < maxLen) (body : Bytes) :
+theorem decF_head (fuel major n : Nat) (hm : major < 7) (hn : n < argMax) (body : Bytes) :
     decF (fuel + 1) (encHead major n ++ body) = decBody (decF fuel) major n body := by
   obtain ⟨b, info, rest, he, h1, h2, h3⟩ := readHead_enc major n (by omega) hn body
   rw [he]
@@ -52,9 +52,10 @@ theorem decF_head (fuel major n : Nat) (hm : major < 7) (hn : n < maxLen) (body 
 
 theorem decKey_enc (k rest : Bytes) (h : k.length < maxLen) :
     decKey ((encHead 3 k.length ++ k) ++ rest) = .ok (k, rest) := by
-  obtain ⟨b, info, r, he, h1, h2, h3⟩ := readHead_enc 3 k.length (by omega) h (k ++ rest)
+  have hnot : ¬ (maxLen ≤ k.length) := by omega
+  obtain ⟨b, info, r, he, h1, h2, h3⟩ := readHead_enc 3 k.length (by omega) (by unfold maxLen at h; unfold argMax; omega) (k ++ rest)
   rw [List.append_assoc, he]
-  simp [decKey, h1, h2, h3, takeN_append]
+  simp [decKey, h1, h2, h3, takeN_append, hnot]
 
 theorem dec_int (fuel : Nat) (i : Int) (rest : Bytes)
     (h0 : -(9223372036854775808 : Int) ≤ i) (h1 : i < (18446744073709551616 : Int)) :
@@ -62,10 +63,10 @@ theorem dec_int (fuel : Nat) (i : Int) (rest : Bytes)
   unfold encInt
   split
   · rename_i hpos
-    rw [decF_head fuel 0 _ (by omega) (by unfold maxLen; omega)]
+    rw [decF_head fuel 0 _ (by omega) (by unfold argMax; omega)]
     simp [decBody, Int.toNat_of_nonneg hpos]
   · rename_i hneg
-    rw [decF_head fuel 1 _ (by omega) (by unfold maxLen; omega)]
+    rw [decF_head fuel 1 _ (by omega) (by unfold argMax; omega)]
     have e : (((-1 - i).toNat : Nat) : Int) = -1 - i := Int.toNat_of_nonneg (by omega)
     have hlt : (-1 - i).toNat < 9223372036854775808 := by omega
     simp [decBody, hlt, e]
@@ -99,31 +100,35 @@ mutual
         | zero => simp [depth] at hd
         | succ fuel =>
           simp [validB] at hv
-          rw [enc, List.append_assoc, decF_head fuel 3 _ (by omega) hv]
-          simp [decBody, mapV, takeN_append]
+          have hnot : ¬ (maxLen ≤ s.length) := by omega
+          rw [enc, List.append_assoc, decF_head fuel 3 _ (by omega) (by unfold maxLen at hv; unfold argMax; omega)]
+          simp [decBody, mapV, takeN_append, hnot]
     | .bin s, fuel, rest, hv, hd => by
         cases fuel with
         | zero => simp [depth] at hd
         | succ fuel =>
           simp [validB] at hv
-          rw [enc, List.append_assoc, decF_head fuel 2 _ (by omega) hv]
-          simp [decBody, mapV, takeN_append]
+          have hnot : ¬ (maxLen ≤ s.length) := by omega
+          rw [enc, List.append_assoc, decF_head fuel 2 _ (by omega) (by unfold maxLen at hv; unfold argMax; omega)]
+          simp [decBody, mapV, takeN_append, hnot]
     | .list l, fuel, rest, hv, hd => by
         cases fuel with
         | zero => simp [depth] at hd
         | succ fuel =>
           simp [validB] at hv
           simp [depth] at hd
-          rw [enc, List.append_assoc, decF_head fuel 4 _ (by omega) hv.1]
-          simp [decBody, mapV, decItems_enc l fuel rest hv.2 hd]
+          have hnot : ¬ (maxLen ≤ l.length) := by omega
+          rw [enc, List.append_assoc, decF_head fuel 4 _ (by omega) (by have := hv.1; unfold maxLen at this; unfold argMax; omega)]
+          simp [decBody, mapV, decItems_enc l fuel rest hv.2 hd, hnot]
     | .dict d, fuel, rest, hv, hd => by
         cases fuel with
         | zero => simp [depth] at hd
         | succ fuel =>
           simp [validB] at hv
           simp [depth] at hd
-          rw [enc, List.append_assoc, decF_head fuel 5 _ (by omega) hv.1]
-          simp [decBody, mapV, decPairs_enc d fuel rest hv.2 hd]
+          have hnot : ¬ (maxLen ≤ d.length) := by omega
+          rw [enc, List.append_assoc, decF_head fuel 5 _ (by omega) (by have := hv.1.1; unfold maxLen at this; unfold argMax; omega)]
+          simp [decBody, mapV, decPairs_enc d [] fuel rest hv.2 hv.1.2 hd, hnot]
   theorem decItems_enc : ∀ (l : List CVal) (fuel : Nat) (rest : Bytes), validListB maxLen l = true →
       depthList l < fuel → decItems (decF fuel) l.length (encList l ++ rest) = .ok (l, rest)
     | [], _, _, _, _ => by simp [encList, decItems]
@@ -132,15 +137,18 @@ mutual
         simp [depthList] at hd
         simp [encList, decItems, List.append_assoc, decF_enc v fuel (encList vs ++ rest) hv.1 (by omega),
           decItems_enc vs fuel rest hv.2 (by omega)]
-  theorem decPairs_enc : ∀ (d : List (Bytes × CVal)) (fuel : Nat) (rest : Bytes), validDictB maxLen d = true →
-      depthDict d < fuel → decPairs decKey (decF fuel) d.length (encDict d ++ rest) = .ok (d, rest)
-    | [], _, _, _, _ => by simp [encDict, decPairs]
-    | (k, v) :: r, fuel, rest, hv, hd => by
+  theorem decPairs_enc : ∀ (d : List (Bytes × CVal)) (seen : List Bytes) (fuel : Nat) (rest : Bytes),
+      validDictB maxLen d = true → noDupFrom seen d = true →
+      depthDict d < fuel → decPairs decKey (decF fuel) d.length seen (encDict d ++ rest) = .ok (d, rest)
+    | [], _, _, _, _, _, _ => by simp [encDict, decPairs]
+    | (k, v) :: r, seen, fuel, rest, hv, hn, hd => by
         simp [validDictB] at hv
+        simp [noDupFrom] at hn
         simp [depthDict] at hd
         have hk := decKey_enc k (enc v ++ (encDict r ++ rest)) hv.1.1
         simp [encDict, decPairs, List.append_assoc] at hk ⊢
-        simp [hk, decF_enc v fuel (encDict r ++ rest) hv.1.2 (by omega), decPairs_enc r fuel rest hv.2 (by omega)]
+        simp [hk, hn.1, decF_enc v fuel (encDict r ++ rest) hv.1.2 (by omega),
+          decPairs_enc r (k :: seen) fuel rest hv.2 hn.2 (by omega)]
 end
 
 
@@ -192,13 +200,15 @@ theorem decTop_enc (l : List CVal) (hv : validB maxLen (.list l) = true) :
     intro fuel hf
     have := decItems_enc l fuel [] hv.2 hf
     simpa using this
-  obtain ⟨b, info, rest, he, h1, h2, h3⟩ := readHead_enc 4 l.length (by omega) hv.1 (encList l)
+  have hnot : ¬ (maxLen ≤ l.length) := by omega
+  obtain ⟨b, info, rest, he, h1, h2, h3⟩ := readHead_enc 4 l.length (by omega)
+    (by have := hv.1; unfold maxLen at this; unfold argMax; omega) (encList l)
   have hlen : (b :: rest).length = (encHead 4 l.length).length + (encList l).length := by
     rw [← he]; simp
   simp only [enc]
   rw [he]
   simp only [decTop, h1, h2, h3]
-  simp
+  simp [hnot]
   rw [key _ (by simp at hlen; omega)]
 
 end Nexus.Codec.CBOR
